@@ -83,12 +83,12 @@ def fmtDs (r : List String × List (String × XArr)) : String :=
   s!"{fmtList id (sortStr (v.coords.map (·.1)))} " ++
   " ".intercalate (r.2.map fun nv => fmtVar nv.1 nv.2)
 
-def build (src nt nb ops attrs : String) : Option (Res XArr) := do
+def build (src nt nb cn ops attrs : String) : Option (Res XArr) := do
   let src ← parseSrc? src
   let nt ← parseOpt? parseNat? nt; let nb ← parseOpt? parseNat? nb
   let ops ← parseList? parseOp? ops
   let attrs ← parseListRaw? attrs
-  pure (match wrap src nt nb "spatial_ref" attrs with
+  pure (match wrap src nt nb cn attrs with
     | .error e => .error e
     | .ok a => applyOps a ops)
 
@@ -105,16 +105,21 @@ def run (args : List String) : Option String :=
     let n ← parseNat? n
     let a ← parseOpt? parseInt? a; let b ← parseOpt? parseInt? b; let c ← parseInt? c
     pure (fmtList fmtInt (PySliceStep.sel n a b c))
-  | ["rt", src, nt, nb, ops] => do
-    let r ← build src nt nb ops "[]"
+  | ["rt", src, nt, nb, cn, ops] => do
+    let r ← build src nt nb cn ops "[]"
     pure (fmtRes fmtArr r)
-  | ["repr", src, nt, nb, ops, attrs, dst, nodata] => do
-    let r ← build src nt nb ops attrs
+  | ["repr", src, nt, nb, cn, ops, attrs, dst, nodata, post] => do
+    let r ← build src nt nb cn ops attrs
+    let post ← parseList? parseOp? post
     let dst ← parseGeoBox? dst
     let nd ← parseBool? nodata
-    pure (fmtRes fmtOut (match r with | .error e => .error e | .ok a => assemble a dst nd))
-  | ["reprds", src, nt, nb, ops, attrs, dsattrs, extra, dst] => do
-    let r ← build src nt nb ops attrs
+    pure (fmtRes fmtOut (match r with
+      | .error e => .error e
+      | .ok a => match assemble a dst nd with
+        | .error e => .error e
+        | .ok o => applyOps o post))
+  | ["reprds", src, nt, nb, cn, ops, attrs, dsattrs, extra, dst] => do
+    let r ← build src nt nb cn ops attrs
     let dst ← parseGeoBox? dst
     let dsattrs ← parseListRaw? dsattrs
     let extra ← parseBool? extra
